@@ -17,5 +17,7 @@ for c in cs:
     kw = getattr(pack, "EXECUTOR_KW", {}).get(c.target, None)
     rep = verify.run_contract(prop, c, reg, uni, executor_cls=getattr(pack, "EXECUTOR", verify.Executor), executor_kw=kw)
     print(c.target.split("::")[1], "err", rep.error, "oos", rep.out_of_subset, "paths", rep.paths, "gen", round(rep.gen_seconds, 2), "total", round(time.time() - t, 2), flush=True)
+    if rep.abstracted:
+        print("   abstracted:", rep.abstracted[:8])
     for o in rep.obligations:
         print("  ", o["id"].split("::")[1], o["status"], o["vcs"], o["seconds"], (o["reason"] or "")[:150], o.get("witness"), flush=True)
